@@ -27,7 +27,7 @@ def castU64 (f : Float32) : Nat :=
 def fops : FloatOps where
   rateKey b := castI32 (Float32.ofBits b * 10000.0)
   truncNat b := castU64 (Float32.ofBits b)
-  ratioNat a b := castU64 (Float32.ofBits a / Float32.ofBits b)
+  ratioNat a b := castU64 (Float32.round (Float32.ofBits a / Float32.ofBits b))
 
 /-- announced size of the data section (frames x floats per frame): beyond 4M floats a load is not
     replayed in the model (known finding: cost follows the announced counts, not the file size) -/
